@@ -70,7 +70,48 @@ def opDistMoment (j : Json) : D Json := do
     | none => throw s!"no-moment:{fam}")
   pure (okJson [("moments", Json.arr (vals.map jsonRat).toArray)])
 
+/-- `reach`: for each listed variable the distinct values it holds at the iteration boundaries
+    n = nmin..nmax (`null` when some value is not a constant, i.e. depends on a continuous draw) -/
+def opReach (j : Json) : D Json := do
+  let P ← decProgram (← jField j "program")
+  let σ₀ ← decStore (← jField j "sigma0")
+  let vars ← (← jArr (← jField j "vars")).mapM jStr
+  let nmax ← jNat (← jField j "nmax")
+  let nmin ← jNat (jFieldD j "nmin" (Json.num 0))
+  let budget := match (jFieldD j "budget" (Json.num 4000)).getNat? with
+    | .ok b => b
+    | .error _ => 4000
+  let d₀ ← execBlock P.init ⟨σ₀, []⟩
+  let mut d := d₀.mergeFast
+  let mut sets : List (Option (List Rat)) := vars.map (fun _ => some [])
+  let mut done : Nat := 0
+  for i in List.range (nmax + 1) do
+    if i ≥ nmin then
+      sets := (sets.zip vars).map (fun (sv : Option (List Rat) × String) =>
+        match sv.1 with
+        | none => none
+        | some acc =>
+          d.foldl (fun (a : Option (List Rat)) (wp : Rat × Path) =>
+            match a with
+            | none => none
+            | some l =>
+              match wp.2.vals.get? sv.2 with
+              | none => some l
+              | some v =>
+                match MPoly.isConst? v with
+                | none => none
+                | some c => if l.contains c then some l else some (c :: l)) (some acc))
+    done := i
+    if i < nmax then
+      if d.length > budget then break
+      d := (← d.bindM (iter P)).mergeFast
+  pure (okJson [("sets", Json.arr (sets.map (fun (s : Option (List Rat)) =>
+      match s with
+      | none => Json.null
+      | some l => Json.arr (l.map jsonRat).toArray)).toArray),
+    ("ndone", Json.num done)])
+
 def coreOps : List (String × (Json → D Json)) :=
-  [("moments", opMoments), ("dist", opDist), ("distmoment", opDistMoment)]
+  [("moments", opMoments), ("dist", opDist), ("distmoment", opDistMoment), ("reach", opReach)]
 
 end Polar
